@@ -28,6 +28,7 @@ type c10Case struct {
 	N    int    `json:"n,omitempty"`
 	Body string `json:"body,omitempty"`
 	// gateway
+	MaxBatch  int                              `json:"max_batch_size,omitempty"` // 0 = the default (3000): 1 or 2 split a level's batch into chunks
 	WorldSeed int64                            `json:"world_seed,omitempty"`
 	OpSeed    int64                            `json:"op_seed,omitempty"`
 	Op        *gen.GenOp                       `json:"operation,omitempty"`
@@ -217,7 +218,11 @@ func driveC10(seed int64, tier, out, replay string) {
 				if j%2 == 1 {
 					mode = "service_errors"
 				}
-				cases = append(cases, c10Case{Mode: mode, WorldSeed: ws, OpSeed: rng.Int63()})
+				c := c10Case{Mode: mode, WorldSeed: ws, OpSeed: rng.Int63()}
+				if mode == "service_errors" && j%4 == 3 {
+					c.MaxBatch = 1 + (j/4)%2
+				}
+				cases = append(cases, c)
 			}
 		}
 	}
@@ -239,11 +244,11 @@ func driveC10(seed int64, tier, out, replay string) {
 			idx++
 			continue
 		}
-		key := fmt.Sprint(c.WorldSeed, c.Mode)
+		key := fmt.Sprint(c.WorldSeed, c.Mode, c.MaxBatch)
 		r := rigs[key]
 		if r == nil {
 			var err error
-			r, err = NewRig(worldFor(c.WorldSeed, "inD01"), RigConfig{RealHTTP: c.Mode == "service_errors"})
+			r, err = NewRig(worldFor(c.WorldSeed, "inD01"), RigConfig{RealHTTP: c.Mode == "service_errors", MaxBatch: c.MaxBatch})
 			if err != nil {
 				continue
 			}
